@@ -690,14 +690,19 @@ def gen_font_case(rng, tier, i):
         layer_ops(rng.randint(1, 3))    # format that stores one layer; then everything is read; then back to format 3
         if rng.random() < 0.3:
             edits(1)
-        save(rng.choice(below))
+        save(rng.choice(below + below + [3]))
         if rng.random() < 0.6:
             ops.append(["dump"])
         if rng.random() < 0.6:
             save(3, rng.choice(["new", "new", "inplace", "over"]))
     elif k == 11:                   # ... saved below format 3, the layer set changed AGAIN (another default layer among the
         layer_ops(rng.randint(0, 2))    # changes), saved in place in that format, and back to format 3
-        t = save(rng.choice(below))
+        if s < 3 and rng.random() < 0.5:
+            # a UFO 1/2 as it was opened (partly read), its layer renamed / joined by others, saved in place as it is
+            layer_ops(1, [rng.choice(["rename-default", "new", "default"])])
+            t = save(s, "inplace")
+        else:
+            t = save(rng.choice(below))
         layer_ops(rng.randint(1, 3), rng.choice([["default"], ["default", "rename"], ["new", "default"], ["delete", "default"],
                                                    ["rename-default", "order"], None]))
         if rng.random() < 0.3:
@@ -712,6 +717,11 @@ def gen_font_case(rng, tier, i):
             if l["name"] != sh.s["default"]:
                 layer_ops(1, ["rename"])
         layer_ops(rng.randint(0, 2), ["order", "new"])
+        if rng.random() < 0.4:
+            layer_ops(1, ["rename-default"])
+        if s < 3 and rng.random() < 0.4:
+            save(s, "inplace")
+            edits(1)
         save(rng.choice(below), rng.choice(["inplace", "new", "over"]))
         if rng.random() < 0.5:
             save(3, "new")
@@ -1635,7 +1645,7 @@ def run_font(case, tmpd):
         if fmt_before != t or mode != "inplace":
             conversions += 1
         if layer_ops_since_save:
-            key = "save.after-layer-ops.%s" % ("down" if t < 3 and fmt_before > t else "below3-same" if t < 3 and fmt_before == t else "to3" if fmt_before < 3 else "3>3" if t == 3 else "up")
+            key = "save.after-layer-ops.%s" % ("down" if t < 3 and fmt_before > t else "below3-same" if t < 3 and fmt_before == t else "1>2" if t < 3 else "to3" if fmt_before < 3 else "3>3")
             stats[key] = stats.get(key, 0) + 1
             for lk in set(layer_ops_since_save):
                 stats["save.after.%s.%s" % (lk, "below3" if t < 3 else "3")] = stats.get("save.after.%s.%s" % (lk, "below3" if t < 3 else "3"), 0) + 1
